@@ -505,6 +505,10 @@ def oracle(case, obs):
     for opi, (op, (evs, is_exec, cur)) in enumerate(zip(case["hist"], obs)):
         kind = op[0]
         errs = [e for e in evs if e[0] == "err"]
+        if errs and kind == "aiter" and not any(o_[0] == "aenable" for o_ in case["hist"][:opi]):
+            # AutonomousStateMachine.on_iteration() before the first on_enable(): the latch attribute does not exist yet and the
+            # unchanged library raises AttributeError (the selector always calls on_enable() first; outside every property)
+            break
         if errs:
             out.append(("C01", "op %d %r: exception %s escaped" % (opi, op, errs[0][1])))
             # no generated history asks for anything illegal (every name is a state, every argument well-formed): an operation
@@ -528,8 +532,8 @@ def oracle(case, obs):
                 if e[7] < maxclk:
                     off = True
                 maxclk = max(maxclk, e[7])
-            if e[0] == "enter" and default is not None and e[1] == default:
-                off = True
+            if e[0] == "enter" and default is not None and e[1] == default and (e[-1] > 0 or kind == "engage"):
+                off = True       # an explicit transition into the default state (by a state function or by engage(initial_state=..))
             if e[0] in ("enter", "done") and e[-1] > 0 and not e[-2]:
                 off = True       # in-state action while the machine is not executing
         if off:
